@@ -23,3 +23,36 @@ func TestEqBitsCRC(t *testing.T) {
 		t.Fatalf("not folded: %s", e.String())
 	}
 }
+
+// Division and remainder by a power of two are rewritten to shifts and
+// masks: the rewritten term must agree with Go's operators.
+func TestPow2DivRem(t *testing.T) {
+	st := NewStore()
+	x := st.Var("x", KBV, 64)
+	vals := []int64{0, 1, -1, 5, -5, 65535, 65536, -65536, -65537, 1 << 40, -(1 << 40) - 3, -9223372036854775808, 9223372036854775807, -131072, 131071}
+	for _, k := range []uint{0, 1, 3, 16, 40, 62} {
+		d := int64(1) << k
+		for _, v := range vals {
+			model := map[string]uint64{"x": uint64(v)}
+			ev := func(op Op) uint64 {
+				r := st.Eval(st.bin(op, x, BV(uint64(d), 64)), model, map[*Term]*Term{})
+				if !r.IsConst() {
+					t.Fatalf("not constant")
+				}
+				return r.c
+			}
+			if got, want := ev(OpSRem), uint64(v%d); got != want {
+				t.Errorf("%d %% %d: got %d want %d", v, d, int64(got), int64(want))
+			}
+			if got, want := ev(OpSDiv), uint64(v/d); got != want {
+				t.Errorf("%d / %d: got %d want %d", v, d, int64(got), int64(want))
+			}
+			if got, want := ev(OpURem), uint64(v)%uint64(d); got != want {
+				t.Errorf("u %d %% %d: got %d want %d", v, d, got, want)
+			}
+			if got, want := ev(OpUDiv), uint64(v)/uint64(d); got != want {
+				t.Errorf("u %d / %d: got %d want %d", v, d, got, want)
+			}
+		}
+	}
+}
